@@ -59,6 +59,8 @@ public:
 
   bool isVarName() const override { return true; }
 
+  bool isStorage() const override { return true; }
+
   unsigned symbolId() const override { return _id; }
 
   std::string unparse(Context& ctx) const override
